@@ -6,6 +6,7 @@
 From stdpp Require Import gmap.
 From Coq Require Import NArith.
 From Synnax Require Import Generated.Consts_C15 Core.Channel Core.Dist Core.DistProofs Core.DistRefine Core.DistSync.
+From Synnax Require Core.ChannelSrc.
 Local Open Scope N_scope.
 Notation length := List.length.
 
@@ -124,3 +125,16 @@ Example C07_nonvacuous :
   cluster_read c x_d3 = [1; 2; 3] /\ stray c 2 x_t1 = [] /\ stray c 3 x_d1 = [] /\
   dresults (Cluster x_chans ∅ ∅) x_ops = [DOk; DOk; DOk; DAck; DOk; DOk; DMissing; DOk; DOk].
 Proof. exact x_facts. Qed.
+
+(* ---- tie to the source by translation: the leaseholder arithmetic on channel keys that decides where a write or a
+   read is routed (Core/Channel.v new_key / leaseholder / local_key) is EQUAL to the Gallina that translator/go2coq
+   regenerates from core/pkg/distribution/channel/channel.go on every run (Generated/Src_ChanKey.v). *)
+Theorem C07_channel_keys_from_source :
+  (forall lease lkey, ChannelSrc.S.channel_NewKey (Z.of_N lease) (Z.of_N lkey) = Z.of_N (Channel.new_key lease lkey)) /\
+  (forall k, (k < 2 ^ 32)%N -> ChannelSrc.S.Key_Leaseholder (Z.of_N k) = Z.of_N (Channel.leaseholder k)) /\
+  (forall k, (k < 2 ^ 32)%N -> ChannelSrc.S.Key_LocalKey (Z.of_N k) = Z.of_N (Channel.local_key k)) /\
+  (forall k, (k < 2 ^ 32)%N -> ChannelSrc.S.Key_Free (Z.of_N k) = (Channel.leaseholder k =? Consts_C15.node_free)%N) /\
+  ChannelSrc.S.math_MaxUint20 = Z.of_N Consts_C15.max_local /\
+  ChannelSrc.S.node_KeyBootstrapper = Z.of_N Consts_C15.node_boot.
+Proof. exact ChannelSrc.channel_keys_from_source. Qed.
+Print Assumptions C07_channel_keys_from_source.
